@@ -286,7 +286,7 @@ class PythonCryptoEndpoint(CryptoEndpoint, EndpointListener):
 
             try:
                 cell.message = hop.keys.encrypt_str(cell.message, direction)
-            except ValueError as e:
+            except Exception as e:
                 msg = f"Failed to encrypt cell for {cell.circuit_id} (dir {direction}) (layer {layer + 1}/{len(hops)})"
                 raise CryptoException(msg) from e
 
@@ -306,7 +306,7 @@ class PythonCryptoEndpoint(CryptoEndpoint, EndpointListener):
 
             try:
                 cell.message = hop.keys.decrypt_str(cell.message, direction)
-            except ValueError as e:
+            except Exception as e:
                 msg = f"Failed to decrypt cell for {cell.circuit_id} (dir {direction}) (layer {layer + 1}/{len(hops)})"
                 raise CryptoException(msg) from e
 
